@@ -322,3 +322,27 @@ def num_family(rng, n, exhaustive_len=3):
         ctx = rng.choice(NUM_CTX) if rng.random() < 0.6 else "{}"
         out.append(ctx.replace("{}", lit))
     return out
+
+
+# ----------------------------------------------------------------------------- C18 family
+
+SEP_STATS = ["%let a=1;", "%put x;", "%if 1 %then", "%else", "%do;", "%end;", "%macro m;", "%mend;", "%global g;",
+             "%local l;", "%goto l;", "%lbl:", "%lbl :", "%return;", "%abort;", "%symdel a;", "%syscall f();",
+             "%sysexec ls;", "%copy m / s;", "%input;", "%window w;", "%display w;", "%syslput a=b;", "%sysrput a=b;",
+             "%sysmacdelete m;", "%sysmstoreclear;", "%do i=1 %to 2;", "%do %while(1);", "%include f;", "%list;",
+             "%run;", "%to", "%by", "%then", "%while(1)", "%until(1)"]
+SEP_GLUE = ["", " ", ";", "; ", "a ", "a=1 ", "data x; ", "\n", "/*c*/", "%m ", "%m() ", "\"s\" ", "&v ", ") ", "( ",
+            "%then ", "%else ", "x %then ", "%str(a) ", "'s'", "1 ", "%* c; ", "* c; ", "%m(", "\"", "%eval(1) "]
+
+
+def sep_family(rng, n):
+    out = []
+    for _ in range(n):
+        k = rng.randint(1, 5)
+        parts = []
+        for _ in range(k):
+            parts.append(rng.choice(SEP_GLUE))
+            parts.append(rng.choice(SEP_STATS))
+        parts.append(rng.choice(SEP_GLUE))
+        out.append("".join(parts))
+    return out
